@@ -210,7 +210,10 @@ def main():
         "checks": checks,
         "not_applicable": na,
         "notes": "All checks: ./check <id> --tier quick|thorough [--seed N]; exit 0 held / 1 violation / 2 machinery failure. "
-                 "known_findings.json lists recorded and fixed defects. PYBC_REPO=<dir> points the checks at another tree (self-tests).",
+                 "known_findings.json lists recorded and fixed defects. PYBC_REPO=<dir> points the checks at another tree (self-tests). "
+                 "./check EXTRAS runs the specification modules beyond the listed properties (Atmo, Results, ConfigLoad, VectorAlg, Output, "
+                 "Validation, Derived, Service; evidence_beyond_listed/). ./check selftest runs the hand-written mutants (selftest/mutants.json); "
+                 "tools/run_seeded.sh [tier] [ids] runs the checks against the independently written seeded changes under seeded/ (DESIGN.md 9.3, 10).",
     }
     out = os.path.join(HERE, "MANIFEST.json")
     json.dump(man, open(out, "w"), indent=1)
